@@ -32,3 +32,23 @@ Proof.
   replace (N.to_nat k - length (skipn (N.to_nat p) a))%nat with 0%nat by (rewrite skipn_length; lia).
   cbn. rewrite app_nil_r. reflexivity.
 Qed.
+
+Lemma subN_mid {A} (pre mid rest : list A) : subN (pre ++ mid ++ rest) (lenN pre) (lenN mid) = mid.
+Proof.
+  unfold subN, lenN. rewrite !Nat2N.id, skipn_app, skipn_all, Nat.sub_diag. cbn [app skipn].
+  rewrite firstn_app, firstn_all, Nat.sub_diag. cbn [firstn]. apply app_nil_r.
+Qed.
+Lemma lenN_rev {A} (l : list A) : lenN (rev l) = lenN l.
+Proof. unfold lenN. rewrite rev_length. reflexivity. Qed.
+
+Lemma last_app' {A} (l1 l2 : list A) d : l2 <> [] -> last (l1 ++ l2) d = last l2 d.
+Proof.
+  intro H. induction l1 as [|a l1 IH]; [reflexivity|]. cbn [app].
+  destruct (l1 ++ l2) eqn:E; [apply app_eq_nil in E; destruct E; congruence|]. exact IH.
+Qed.
+
+Lemma last_In {A} (l : list A) d : l <> [] -> In (last l d) l.
+Proof.
+  induction l as [|a l IH]; intro H; [congruence|]. destruct l as [|b l]; [left; reflexivity|].
+  right. apply IH. discriminate.
+Qed.
